@@ -47,6 +47,7 @@ PROFILE = gen.profile(
   act_ball=False,  # ball/free-joint servos are C03's subject (MuJoCo 3.13 wraps their position error)
   p_poly=0.6,  # polynomial stiffness / damping on joints and tendons
   p_actfrcrange=0.3,
+  p_actgravcomp=0.4,
 )
 
 REPO_MODELS = ["humanoid/humanoid.xml", "pendula.xml", "tendon/armature.xml", "tendon/damping.xml", "actuation/actuators.xml"]
